@@ -228,7 +228,7 @@ def agree_ref(ctx, fi, ref_src, title, what=('return', 'heap', 'substores'), rul
                       lambda e: [('object', e.data['base']), ('key', lift(e.data['key']) if isinstance(e.data['key'], str) else e.data['key'])],
                       txt)
     if 'raises' in what:
-        ra = [e for e in I.events if e.kind == 'raise' and e.func.short == own]
+        ra = [e for e in I.events if e.kind == 'raise']      # incl. package helpers the function was inlined through
         rb = [e for e in IR.events if e.kind == 'raise']
         _match_groups(ctx, rule, title, fi, 'rejecting path', ra, rb, lambda e: [('guard', e.cond())], txt)
     if 'substores' in what:
